@@ -513,7 +513,8 @@ func (g *G) Next(i int) *Program {
 // opcode x operand-class matrix: one micro-program per (opcode, operand tuple)
 
 var classWords = []string{"0", "1", "2", "1f", "20", "21", "ff", "100", "80000000", "7fffffffffffffff", "ffffffffffffffff", "10000000000000000",
-	"8000000000000000000000000000000000000000000000000000000000000000", "ffffffffffffffffffffffffffffffffffffffffffffffffffffffffffffffff"}
+	"8000000000000000000000000000000000000000000000000000000000000000", "ffffffffffffffffffffffffffffffffffffffffffffffffffffffffffffffff",
+	"ffffffffffffffdf", "ffffffffffffffe0", "ffffffffffffffe1"} // offset + 32 lands on 2^64-1, 2^64, 2^64+1: the word-size rounding boundary (appended: indices 12, 13 are used by name)
 
 func cw(i int) []byte {
 	b, _ := new(big.Int).SetString(classWords[i], 16)
